@@ -14,8 +14,14 @@ def norm_lines(lines):
     return [l for l in lines if l and not l.startswith('[')]
 
 
+class BigRef(refscxml.Ref):
+    """attribution only: the engines ran to the driver's step cap (400 steps), so must the reference"""
+    MAXMICRO = 450
+    MAXSTEPS = 1500
+
+
 def exact(ch, hist, dm, engine, parsed, variants):
-    r = refscxml.Ref(ch, variants)
+    r = BigRef(ch, variants)
     r.interpret(hist)
     if r.diverged: return False
     v, k, d = c01lib.compare_case(ch, hist, dm, engine, parsed, r)
@@ -25,6 +31,10 @@ def exact(ch, hist, dm, engine, parsed, variants):
 def attribute(ch, hist, dm, pl, pf):
     from vf.checks import c01
     v, k, d = c01.judge(ch, hist, dm, 'large', pl)
+    if v == 'diverged':
+        # long but terminating run: judge with the larger caps
+        r0 = BigRef(ch); r0.interpret(hist)
+        if not r0.diverged: v, k, d = c01lib.compare_case(ch, hist, dm, 'large', pl, r0)
     if v == 'deviation' and k == 'nested-history-shared-store':
         # both engines share the one-set history store; once it has produced a wrong (possibly illegal) configuration the engines need not agree
         return 'nested-history-shared-store'
@@ -34,7 +44,7 @@ def attribute(ch, hist, dm, pl, pf):
         return 'fast-static-conflict-selection'
     if large_ok:
         # fast follows the static-selection reference up to a micro step where the shared history store shows (K9 predicate of vf.compare)
-        r = refscxml.Ref(ch, ('static_select', 'static_domain')); r.interpret(hist)
+        r = BigRef(ch, ('static_select', 'static_domain')); r.interpret(hist)
         if not r.diverged:
             v2, k2, d2 = c01lib.compare_case(ch, hist, dm, 'fast', pf, r)
             if v2 == 'deviation' and k2 == 'nested-history-shared-store': return 'nested-history-shared-store'
